@@ -568,6 +568,8 @@ fn absorb(a: &mut Agg, sub: u64, p: &Value, o: &Outcome) {
         let fam = o.class.split('/').next().unwrap_or("").to_string();
         let kind = if o.class.contains("close-early") || o.class.contains("no-reply") || o.class.contains("refused-connection") {
             o.class.clone()
+        } else if o.class.starts_with("stall") {
+            "endpoint-stalls-until-client-timeout".to_string()
         } else if o.class.contains("cut-") {
             format!("reply-cut:{}", o.class.split('/').last().unwrap_or(""))
         } else if o.class.contains("content-length") {
@@ -698,7 +700,7 @@ fn main() {
                         break;
                     }
                     let sub = simcore::subseed(seed, "C20/main", i as u64);
-                    let p = plan::generate(sub, world, with_big);
+                    let p = plan::generate(sub, world, with_big, with_big);
                     let o = execute(&p, world, cfg, slot);
                     let mut a = agg.lock().unwrap();
                     absorb(&mut a, sub, &p, &o);
@@ -723,7 +725,7 @@ fn main() {
                         break;
                     }
                     let sub = simcore::subseed(seed, "C20/determinism", i as u64);
-                    let p = plan::generate(sub, world, false);
+                    let p = plan::generate(sub, world, false, false);
                     let a = execute(&p, world, cfg, slot + 100);
                     let b = execute(&p, world, cfg, slot + 100);
                     det_done.fetch_add(1, Ordering::Relaxed);
